@@ -16,7 +16,7 @@ KINDS = ['fixed', 'fixed', 'fixed', 'dup', 'dup', 'auto', 'auto', 'hard', 'autoh
          'reserved', 'multislot', 'dup', 'dense', 'saturating', 'loose']
 
 
-def gen_batch(rng, tier, nreq=None, kinds=None):
+def gen_batch(rng, tier, nreq=None, kinds=None, twins_ok=True):
     n = rng.choice([3, 3, 4, 5])
     order = list(range(n))
     rng.shuffle(order)
@@ -55,7 +55,37 @@ def gen_batch(rng, tier, nreq=None, kinds=None):
             b['dst'] = rng.choice([x for x in range(n) if x != b['src'] and (x != a['dst'] or n < 3)])
         if all(a[k_] == b[k_] for k_ in ('dst', 'type', 'mode', 'spacing', 'power')):
             b['power'] = 5e-4 if a['power'] != 5e-4 else 2e-3
-    return {'n': n, 'edges': elist, 'lib': lib, 'requests': reqs}
+    twins = {'bidir': [], 'hop': []}
+    # uni/bidirectional TWINS of one request in the same batch (bidir is part of the aggregation key: they are not merged):
+    # blocked by the forward selection (NO_FEASIBLE_MODE / MODE_NOT_FEASIBLE) with a reverse direction that fails too, or served
+    if twins_ok and rng.random() < 0.4:
+        cand = [r for r in reqs if r['kind'] in ('autohard', 'hard', 'auto', 'fixed')]
+        if not cand or rng.random() < 0.5:
+            base = gen_request(rng, f'r{len(reqs)}', rng.choice(['autohard', 'autohard', 'hard', 'auto']), n, reqs)
+            reqs.insert(rng.randrange(len(reqs) + 1), base)
+        else:
+            base = rng.choice(cand)
+        tw = copy.deepcopy(base)
+        tw['id'] = f'r{len(reqs)}'
+        tw['bidir'] = not base['bidir']
+        reqs.insert(rng.randrange(len(reqs) + 1), tw)
+        twins['bidir'].append([base['id'], tw['id']])
+    # LOOSE/STRICT TWINS: same source, destination and include list, an include list no simple path can honour (a ROADM of the
+    # unreachable island, or an order that would need the destination ROADM twice): LOOSE -> unconstrained shortest path,
+    # STRICT -> NO_PATH_WITH_CONSTRAINT, whatever the order in the batch
+    if twins_ok and rng.random() < 0.3:
+        a = gen_request(rng, f'r{len(reqs)}', 'fixed', n, reqs)
+        others = [x for x in range(n) if x not in (a['src'], a['dst'])]
+        a['include'] = [f'roadm N{n}'] if (not others or rng.random() < 0.5) else [f'roadm N{a["dst"]}', f'roadm N{rng.choice(others)}']
+        a['strict'] = False
+        b = copy.deepcopy(a)
+        b['id'], b['strict'] = f'r{len(reqs) + 1}', True
+        first, second = (a, b) if rng.random() < 0.7 else (b, a)
+        i = rng.randrange(len(reqs) + 1)
+        reqs.insert(i, first)
+        reqs.insert(rng.randrange(i + 1, len(reqs) + 1), second)
+        twins['hop'].append([a['id'], b['id']])
+    return {'n': n, 'edges': elist, 'lib': lib, 'requests': reqs, 'twins': twins}
 
 
 def gen_request(rng, rid, kind, n, earlier):
@@ -160,6 +190,20 @@ def run_planning(ctx, reqs):
     from gnpy.tools.worker_utils import planning
     with np.errstate(divide='ignore'):
         return planning(ctx['net'], ctx['eq'], {'path-request': [req_doc(r) for r in reqs]})
+
+
+def twin_pairs(case, which):
+    """the recorded twin pairs that still ARE twins in this (possibly shrunk / edited) case"""
+    by_id = {r['id']: r for r in case['requests']}
+    skip = {'id', 'bidir'} if which == 'bidir' else {'id', 'strict'}
+    out = []
+    for a, b in (case.get('twins') or {}).get(which, []):
+        if a in by_id and b in by_id and {k: v for k, v in by_id[a].items() if k not in skip} == \
+                {k: v for k, v in by_id[b].items() if k not in skip}:
+            flag = 'bidir' if which == 'bidir' else 'strict'
+            if by_id[a][flag] != by_id[b][flag]:
+                out.append((a, b))
+    return out
 
 
 def norm(x):
